@@ -26,8 +26,18 @@ pub fn slot_of(b: &Universal2DBox) -> i64 {
     }
     0
 }
-/// feature symbol -> vector (distances: 1-2 = 3, 1-3 = 4, 2-3 = 5)
+pub static COSINE: std::sync::atomic::AtomicBool = std::sync::atomic::AtomicBool::new(false);
+/// feature symbol -> vector (Euclidean distances: 1-2 = 3, 1-3 = 4, 2-3 = 5; cosine mode: similarities 0.6, 0, 0.8)
 pub fn feature_of(sym: i64) -> Option<Vec<f32>> {
+    if COSINE.load(std::sync::atomic::Ordering::SeqCst) {
+        return match sym {
+            0 => None,
+            1 => Some(vec![1.0, 0.0]),
+            2 => Some(vec![0.6, 0.8]),
+            3 => Some(vec![0.0, 1.0]),
+            o => panic!("feature symbol {}", o),
+        };
+    }
     match sym {
         0 => None,
         1 => Some(vec![0.0, 0.0]),
@@ -547,7 +557,14 @@ pub fn cfg_from_opts(opts: &Opts) -> Cfg {
     c.q_collect = opts.f64("q-collect", 0.6) as f32;
     c.own_use = opts.f64("own-use", 0.0) as f32;
     c.own_collect = opts.f64("own-collect", 0.0) as f32;
-    c.vis_metric = VisualSortMetricType::Euclidean(opts.f64("vis-thr", 3.5) as f32);
+    c.min_area = opts.f64("min-area", 0.0) as f32;
+    c.vis_metric = if opts.str("vis-kind", "euclid") == "cosine" {
+        // the specification counts in 1 - similarity (x 10): similarity threshold = 1 - thr / 10 ... thr is given / 10 already
+        COSINE.store(true, std::sync::atomic::Ordering::SeqCst);
+        VisualSortMetricType::Cosine(1.0 - opts.f64("vis-thr", 0.5) as f32)
+    } else {
+        VisualSortMetricType::Euclidean(opts.f64("vis-thr", 3.5) as f32)
+    };
     c
 }
 
